@@ -87,6 +87,9 @@ func simdev(args []string) {
 	}
 	readLine := func() string {
 		if phase == hold {
+			// park only once the next line has arrived: the client logs the previous answer
+			// before it sends the next command, so from now on it is blocked waiting for us
+			in.Peek(1)
 			ev("AT", phase)
 			deadline := time.Now().Add(120 * time.Second)
 			for time.Now().Before(deadline) {
@@ -105,7 +108,11 @@ func simdev(args []string) {
 		if err != nil && line == "" {
 			finish()
 		}
-		ev("CMD", phase)
+		if strings.TrimPrefix(strings.TrimSuffix(line, "\n"), "do ") == "exit" {
+			ev("BYE", phase) // not awaited by the client: may or may not be seen before we are hung up
+		} else {
+			ev("CMD", phase)
+		}
 		phase++
 		return line
 	}
@@ -296,7 +303,7 @@ func (w *world) start(v inv, hold int, delayUS int) *proc {
 	cmd := exec.Command(w.bins[v.Front], args...)
 	cmd.Dir = filepath.Join(w.dir, v.Cwd)
 	cmd.Env = []string{
-		"PATH=" + os.Getenv("PATH"), "HOME=" + w.dir,
+		"PATH=" + os.Getenv("PATH"), "HOME=" + w.dir, "GOGC=1", // collect eagerly: an unreachable lock file gets finalised soon
 		"TEST_TIME=" + testTime(id).Format("2006-Jan-02 15:04:05"),
 		fmt.Sprintf("SIMULATE_ROUTER=%s simdev %d %s %s %s %s %d", w.self, id, v.Dev, w.eventLog, w.gateDir,
 			filepath.Join(w.dir, "scenario-"+v.Dev), delayUS),
@@ -415,6 +422,21 @@ func (w *world) snapshot() map[string]string {
 	return m
 }
 
+// quiescent waits until the parked holder has finished digesting the simulator's last answer
+// (it logs it to its .login/.config file) and returns the then stable snapshot.
+func (w *world) quiescent() map[string]string {
+	prev := w.snapshot()
+	for i := 0; i < 200; i++ {
+		time.Sleep(4 * time.Millisecond)
+		cur := w.snapshot()
+		if len(diffSnap(prev, cur)) == 0 {
+			return cur
+		}
+		prev = cur
+	}
+	return prev
+}
+
 func diffSnap(a, b map[string]string) []string {
 	var d []string
 	for k, v := range a {
@@ -455,7 +477,7 @@ func (w *world) sessions() []interval {
 		case "START":
 			idx[e.id] = len(l)
 			l = append(l, interval{id: e.id, dev: w.procs[e.id].v.Dev, from: e.t, to: e.t})
-		case "CMD":
+		case "CMD", "BYE":
 			cmds[e.id] = append(cmds[e.id], e.t)
 		case "END":
 			if i, ok := idx[e.id]; ok {
@@ -680,11 +702,13 @@ type runner struct {
 	phases int // number of input lines of one session
 	caseNo int
 	reachCache map[string]string
+	nFail      int
 }
 
 func (r *runner) fail(pred, what string, c c12Case, extra map[string]any) {
 	r.mu.Lock()
 	defer r.mu.Unlock()
+	r.nFail++
 	sig := map[string]any{"pred": pred, "kind": c.Kind}
 	for k, v := range extra {
 		sig[k] = v
@@ -795,7 +819,7 @@ func (r *runner) runCase(c c12Case) {
 	cx := r.fixBase(c, dir) // absolute spellings need the directory
 	w := newWorld(dir, r.self, r.bins, rng)
 	defer os.RemoveAll(dir)
-	long := 30 * time.Second
+	long := 12 * time.Second
 	var sched []string
 	exact := true
 	hung := func(p *proc) {
@@ -812,7 +836,7 @@ func (r *runner) runCase(c c12Case) {
 			return
 		}
 		sched = append(sched, "S0")
-		before := w.snapshot()
+		before := w.quiescent()
 		var cs []*proc
 		last := len(cx.Invs) - 1
 		for i := 1; i < last; i++ {
@@ -1018,7 +1042,7 @@ func (r *runner) genCase(rng *RNG) c12Case {
 	switch k := rng.Intn(100); {
 	case k < 38:
 		c.Kind = "gated-contend"
-		c.Phase = rng.Intn(r.phases - 1) // the last line (`exit`) is not awaited: the process may be gone
+		c.Phase = rng.Intn(r.phases) // (the final `exit` is not counted: it is not awaited)
 		c.Invs = []inv{same()}
 		n := 1 + rng.Intn(2)
 		for i := 0; i < n; i++ {
@@ -1031,7 +1055,7 @@ func (r *runner) genCase(rng *RNG) c12Case {
 		c.Invs = append(c.Invs, same())
 	case k < 60:
 		c.Kind = "gated-kill"
-		c.Phase = rng.Intn(r.phases - 1)
+		c.Phase = rng.Intn(r.phases)
 		c.Par = rng.Chance(50)
 		c.Invs = []inv{same(), same()}
 		if c.Par || rng.Chance(40) {
@@ -1215,6 +1239,12 @@ func run(ctx *Ctx) *Result {
 		go func() {
 			defer wg.Done()
 			for c := range ch {
+				r.mu.Lock()
+				stop := r.nFail >= 15 || len(r.res.Disagreements) >= 12
+				r.mu.Unlock()
+				if stop {
+					continue // enough evidence of a broken property: do not spend the budget
+				}
 				r.runCase(c)
 			}
 		}()
